@@ -434,3 +434,79 @@ Definition redecide_system (m : Z * Z) (p : params) : closed_system := {|
   cs_cycle := fun s s' => within_cap p s /\ exists ds, cycle_shape ds = true /\ run_redecide m p s ds = Some s';
   cs_evicts := fun s s' => exists ds, cycle_shape ds = true /\ run_redecide m p s ds = Some s' /\ evicting_cycle ds = true;
 |}.
+
+(** * the job order: ONE function for the allocate action and for the solver's simulation *)
+(** utils.JobsOrderByQueues is the structure both code sites pop their jobs from:
+    - actions/allocate/allocate.go Execute: InitializeWithJobs(all pending jobs), then PopNextJob /
+      attempt to allocate, until empty;
+    - actions/common/action.go GetJobsToAllocate + TryToVirtuallyAllocatePreemptorAndGetVictims (the
+      simulated allocation of EVERY reclaim / preempt / consolidation scenario, called from
+      solvers/by_pod_solver.go tryScenarioWithEvictedVictims, in the session where the scenario's victims
+      are evicted): InitializeWithJobs(all pending jobs + the preemptees' jobs + the preemptor), then
+      PopNextJob; a popped job that is neither the preemptor nor a preemptee is SKIPPED (popped, not
+      allocated); the scenario is accepted iff the preemptor was placed, and the preemptees that
+      could not be placed again are the victims.
+    [order_fn] is PopNextJob: given the current state (the queue shares are a function of it) and the
+    jobs still in the structure, the job popped next ([None] = empty).  The order is dynamic: it is
+    asked again after every allocation.  WHICH order it is (queue_order.go, the job order plugins,
+    a department ranked through the first job of its best leaf queue) is NOT modelled (C16): the
+    statements about it quantify over every [order_fn].  What IS modelled: both code sites use the
+    SAME function, and WHICH JOBS they hand to it ([jobs_fn]).  In the closed system the pending jobs
+    of the state in which the victim is evicted are exactly "all pending jobs + the preemptee + the
+    preemptor": [all_pending] is GetJobsToAllocate as it is.  [scenario_queues_only] is the job set
+    of seeded change C15-2 (only the pending jobs of the preemptor's and the victim's queues); it is
+    here to state what goes wrong when the two code sites do not see the same order. *)
+Definition order_fn := params -> state -> list id -> option id.
+Definition jobs_fn := params -> state -> id -> id -> list id.
+
+(** the pop order only yields jobs that are in the structure *)
+Definition order_sound (o : order_fn) : Prop :=
+  forall p s rest x, o p s rest = Some x -> In x rest.
+
+Definition pending (p : params) (s : state) : list id :=
+  filter (fun i => negb (mem i s)) (map j_id (p_jobs p)).
+
+(** pop until empty; a popped job that [may] be allocated takes a free slot if there is one *)
+Fixpoint pop_loop (fuel : nat) (o : order_fn) (may : id -> bool) (p : params) (s : state)
+         (rest : list id) : state :=
+  match fuel with
+  | O => s
+  | S f =>
+      match o p s rest with
+      | None => s
+      | Some x => pop_loop f o may p (if may x && bind_ok p s x then x :: s else s) (remove1 x rest)
+      end
+  end.
+
+(** allocate.Execute *)
+Definition allocate (o : order_fn) (p : params) (s : state) : state :=
+  let js := pending p s in pop_loop (length js) o (fun _ => true) p s js.
+
+Definition all_pending : jobs_fn := fun p s _ _ => pending p s.
+Definition same_queue (p : params) (x y : id) : bool :=
+  match queue_of p x, queue_of p y with Some a, Some b => Pos.eqb a b | _, _ => false end.
+Definition scenario_queues_only : jobs_fn :=
+  fun p s j v => filter (fun x => same_queue p x j || same_queue p x v) (pending p s).
+
+(** TryToVirtuallyAllocatePreemptorAndGetVictims on the state [s'] in which [v] is evicted *)
+Definition simulate (o : order_fn) (js : jobs_fn) (p : params) (s' : state) (j v : id) : state :=
+  let l := js p s' j v in pop_loop (length l) o (fun x => Pos.eqb x j || Pos.eqb x v) p s' l.
+
+(** a reclaim decision as the solver takes it: the gate, AND the simulated allocation over the evicted
+    state places the reclaimer and does not give the slot back to the victim.  The eviction only frees
+    the slot (the nomination of [j] holds nothing in the next cycle): the result is [remove1 v s]. *)
+Definition reclaim_sim (m : Z * Z) (o : order_fn) (js : jobs_fn) (p : params) (s : state) (j v : id)
+  : option state :=
+  if reclaim_ok m p s j v then
+    let s' := remove1 v s in
+    let sim := simulate o js p s' j v in
+    if mem j sim && negb (mem v sim) then Some s' else None
+  else None.
+
+(** the closed system "allocate, then at most one simulated reclaim" with order [o]; the simulation is
+    handed the jobs [js] *)
+Definition ordered_system (m : Z * Z) (o : order_fn) (js : jobs_fn) (p : params) : closed_system := {|
+  cs_state := state;
+  cs_cycle := fun s s' => s' = allocate o p s \/ exists j v, reclaim_sim m o js p (allocate o p s) j v = Some s';
+  cs_evicts := fun s s' => exists j v, reclaim_sim m o js p (allocate o p s) j v = Some s';
+|}.
